@@ -38,7 +38,9 @@ EXPLANATION = (
     "denotes (multiset of products; operator order kept), the result is a bare Expr, empty text is 0. "
     "R18e: Expr.__init__ evaluated over the table sym_tensors x antisym_tensors x real x target_idx: "
     "declared names are stored, the bra-ket (anti)symmetry is applied with all declared names in place whenever either "
-    "list is non-empty, make_real iff real, target indices forwarded.")
+    "list is non-empty, make_real iff real, target indices forwarded. Thorough tier: the literal round trip "
+    "import(print(O)) = O with the text of the evaluated printers for every tensor kind x configured name x index group "
+    "under both configurations, alone and embedded in a fraction, a bracket with exponent and a sum.")
 ASSUMPTIONS = [
     "sympy's own printer for sums, products, fractions, powers, square roots, brackets, NO, F and Fd is trusted "
     "(the texts of these constructs are written down here as sympy 1.14 prints them)",
@@ -915,6 +917,51 @@ def r18e(ctx, cfgs):
                     ctx.check(rule, fn, okt, f"{what}: target indices forwarded", f"{what}: set_target_idx calls {[(x[2], x[3]) for x in tg]}",
                               key=f"init target {key}")
     ctx.floor(rule, "evaluations of Expr.__init__", n, 64)
+
+
+# ------------------------------------------------------------------ thorough: literal round trip
+
+def round_trip(ctx, wr, rd, cfg):
+    """import(print(O)) = O with the text produced by the evaluated printers, alone and embedded in products, fractions,
+    brackets and sums (the separators of the importer)."""
+    rule = "R18b"
+    kinds = [("AntiSymmetricTensor", cfg["eri"]), ("AntiSymmetricTensor", cfg["fock"]), ("AntiSymmetricTensor", cfg["gs_density"] + "2"),
+             ("AntiSymmetricTensor", "x"), ("SymmetricTensor", cfg["coulomb"]), ("SymmetricTensor", cfg["sym_orb_denom"]),
+             ("Amplitude", cfg["gs_amplitude"] + "2"), ("Amplitude", cfg["gs_amplitude"] + "1cc"), ("Amplitude", cfg["left_adc_amplitude"]),
+             ("Amplitude", cfg["right_adc_amplitude"])]
+    objs = []
+    for cls, name in kinds:
+        for tag, up, lo in GROUPS:
+            objs.append((f"{cls} {name} {tag}", (cls, name, up, lo, 0), tensor(cls, name, up, lo).val))
+    for tag, up, lo in GROUPS:
+        for name in (cfg["orb_energy"], "y"):
+            objs.append((f"NonSymmetricTensor {name} {tag}", ("NonSymmetricTensor", name, up + lo), nonsym(name, up + lo).val))
+    for d in ((i, j), (ia, ja), (i, ia), (pa, q), (i1, j12a)):
+        objs.append((f"delta {d[0][1:]} {d[1][1:]}", ("KroneckerDelta",) + d, delta(*d).val))
+    other = nonsym("z", (k,))
+    n = 0
+    for key, spec, val in objs:
+        fn, text, err = wr(*spec)
+        if text is None:
+            ctx.bad(rule, fn, f"{key}: printer gives {err}", key=f"round trip print {key}")
+            continue
+        x = X(text, val)
+        read_check(ctx, rule, rd, x, f"round trip {key}", f"import(print({key}))")
+        # (a delta never carries an exponent: KroneckerDelta._eval_power)
+        sq = x if spec[0] == "KroneckerDelta" else power(x, 2)
+        read_check(ctx, "R18b'", rd, total((-1, frac(prod(x, other, coeff=3), prod(sq, coeff=2))),
+                                            (1, prod(bracket(total((1, x), (-1, other)), 2), x))),
+                   f"embedded {key}", f"printed {key} inside a fraction, a bracket and a sum")
+        n += 1
+    ctx.floor(rule, "round trips", n, 100)
+
+
+def run_thorough(ctx):
+    if not (ctx.want("R18b") or ctx.want("R18b'")):
+        return
+    defaults, custom = configs(ctx)
+    for tag, cfg in (("default", defaults), ("custom", custom)):
+        round_trip(ctx, Writer(ctx, cfg, defaults), Reader(ctx, cfg, defaults, tag), cfg)
 
 
 # ------------------------------------------------------------------ driver
